@@ -55,10 +55,12 @@ ASSUMPTIONS = [
 ]
 PROPERTY_TRUST = {}
 PROPERTY_ASSUMPTIONS = {
+    'C30': ['A3 complex-step values are dual numbers a + eps*b, eps**2 = 0', 'tanh/exp/log/atan2 are uninterpreted functions constrained by true facts (oddness, monotonicity, range); derivative table for sqrt/tanh/atan2 is trusted mathematics'],
     'C09': ['IEEE mode: doubles are bit-precise except division, which is an uninterpreted function constrained by true IEEE-754 facts (NaN propagation, inf/finite, 0/0, sign rule, x/x, x/1)',
             'assumed: _iter_get_norm returns NaN or a value >= 0; _single_iteration and _run_apply neither raise nor modify solver control state'],
 }
 GAPS = {
+    'C30': ['derivatives of the jax smooth helpers (jax AD)', 'second-order effects of a finite complex step', 'n-d arrays / axis argument of cs_safe.norm'],
     'C06': ['_find_unit / simplify_unit / SI prefixes: bounded exhaustive tier only (regex + eval are outside the subset)', 'fractional powers in PhysicalUnit.__pow__', 'has_val_mismatch', 'the numeric content of unit_library.ini'],
     'C13': ['Subjac.set_col family: bounded exhaustive tier only (not proved)', 'directional derivative checks (directional_fd_fwd / directional_fwd_rev branches)', '_MagnitudeData bookkeeping values', 'deriv_display text rendering', 'which arrays check_partials/check_totals pass in as J_fwd/J_rev/J_fd'],
     'C27': ['types=list (element-wise values check)', 'set_function preprocessing', 'declare() default validation and argument checks', 'update()/undeclare()/set()', 'deprecation warning text'],
